@@ -477,6 +477,20 @@ pub fn sym_path_r<const S: usize>(root: bool) -> (acpi_tables::aml::Path, bool, 
     (acpi_tables::aml::Path::verif_from_parts(root, v), root, segs)
 }
 
+/// Symbolic path whose very first character is the concrete `lead` (so that a decoder's
+/// prefix tests on that byte are concrete); everything else symbolic.
+pub fn sym_path_lead<const S: usize>(root: bool, lead: u8) -> (acpi_tables::aml::Path, bool, [[u8; 4]; S]) {
+    let mut segs: [[u8; 4]; S] = kani::any();
+    segs[0][0] = lead;
+    let mut v = Vec::with_capacity(S);
+    let mut i = 0;
+    while i < S {
+        v.push(segs[i]);
+        i += 1;
+    }
+    (acpi_tables::aml::Path::verif_from_parts(root, v), root, segs)
+}
+
 /// Reference NameString (§20.2.2)
 pub fn ref_namestring<const N: usize, const S: usize>(e: &mut Exp<N>, root: bool, segs: &[[u8; 4]; S]) {
     if root {
